@@ -2,8 +2,10 @@ package main
 
 import (
 	"fmt"
+	"github.com/q191201771/lal/pkg/hls"
 	"io/ioutil"
 	"net"
+	"net/http"
 	"sort"
 	"strings"
 	"sync"
@@ -136,6 +138,7 @@ type c17Scn struct {
 	url     string
 
 	subs    []*rtmp.ServerSession
+	hlsSubs []*hls.SubSession
 	pubKind string
 	pubR    *rtmp.ServerSession
 	pubS    *rtsp.PubSession
@@ -399,6 +402,16 @@ func c17Run(cfgS, evS string) string {
 			s := rtmp.NewServerSession(nil, newRecConn())
 			sc.subs = append(sc.subs, s)
 			clock(func() { sc.g.AddRtmpSubSession(s) })
+		case "Jh": // an HLS player (sub-session mode): a consumer like any other
+			req, _ := http.NewRequest("GET", "http://127.0.0.1/hls/s.m3u8", nil)
+			hs := hls.NewSubSession(req, base.UrlContext{}, "/hls/", "k", 10*time.Second)
+			sc.hlsSubs = append(sc.hlsSubs, hs)
+			clock(func() { sc.g.AddHlsSubSession(hs) })
+		case "Lh":
+			if n := len(sc.hlsSubs); n > 0 {
+				sc.g.DelHlsSubSession(sc.hlsSubs[n-1])
+				sc.hlsSubs = sc.hlsSubs[:n-1]
+			}
 		case "L":
 			if n := len(sc.subs); n > 0 {
 				sc.g.DelRtmpSubSession(sc.subs[n-1])
@@ -596,6 +609,11 @@ func genC17Relay(g *G) {
 	// budget used up, then stop with nothing left to stop, then start again: the stop resets the budget
 	run("corpus-budget-reset", "st=0,pn=0", "J", "AS:0:-1", "OF", "T", "AS:0:-1", "AX", "AS:0:-1", "OF", "AX", "T", "AS:0:-1", "OA")
 	run("corpus-budget-reset", "st=0,pn=0", "J", "AS:1:-1", "OF", "T", "OF", "T", "AS:1:-1", "AX", "AX", "AS:1:-1", "OF", "T", "OA")
+	// HLS players are consumers too: they keep a pull alive, start one, and their departure starts the auto-stop window
+	run("corpus-hls-consumer", "st=1,pn=0", "Jh", "OA", "T", "Lh", "T", "T")
+	run("corpus-hls-consumer", "st=0,pn=0", "Jh", "AS:-1:0", "OA", "T", "Lh", "T")
+	run("corpus-hls-consumer", "st=0,pn=0", "Jh", "AS:-1:40", "OA", "T", "W55", "T", "Lh", "T", "W55", "T")
+	run("corpus-hls-consumer", "st=0,pn=0", "AS:-1:0", "Jh", "OA", "T", "J", "Lh", "T", "L", "T")
 	run("corpus-push", "st=0,pn=2", "P:r", "T", "QA:0", "QF:1", "T", "QA:1", "T", "p", "T")
 	run("corpus-push", "st=0,pn=1", "P:q10", "QA:0", "QE:0", "T", "QA:0", "p")
 	run("corpus-push", "st=0,pn=1", "P:s", "QA:0", "p", "P:c", "T", "p", "T")
